@@ -64,6 +64,13 @@ Definition issue_model (E : issue_env) (input call : json) (exp : json) : out (s
   let cnf := if jbool (jget "cnf" input) then Some (jget "cnf_value" input) else None in
   issue E (claims_with_exp input call exp) (jstrs (jget "paths" input)) (Z_of_json (jget "decoy" input)) cnf header.
 
+(* the value of the claim exp of an issued token: in the payload, or - when /exp was made disclosable - in the claims the
+   holder gets back *)
+Definition exp_value (call : json) : json :=
+  match jget "exp" (jget "payload" (jget "readback" call)) with
+  | JNull => match jlist (obs_val (jget "hverify" call)) with _ :: c :: _ => jget "exp" c | _ => JNull end
+  | e => e end.
+
 (* C14: an expiry requested as n seconds from now is recorded as now+n, now within the call's [t0,t1] *)
 Definition exp_oracle (input call : json) : option string :=
   match Z_of_json (jget "exp_n" call) with
@@ -71,7 +78,7 @@ Definition exp_oracle (input call : json) : option string :=
   | Some n =>
       (* n = the argument of the most recent expires_in_seconds call on this issuer object, [exp_t0, exp_t1] the
          clock around that call; an exp member the claims already had, or an earlier request, must not survive *)
-      match Z_of_json (jget "exp" (jget "payload" (jget "readback" call))), Z_of_json (jget "exp_t0" call), Z_of_json (jget "exp_t1" call) with
+      match Z_of_json (exp_value call), Z_of_json (jget "exp_t0" call), Z_of_json (jget "exp_t1" call) with
       | Some e, Some t0, Some t1 =>
           (* now+n in 64-bit signed arithmetic; beyond its range the recorded value saturates *)
           let lo := Z.max (-9223372036854775808) (Z.min 9223372036854775807 (t0 + n)) in
@@ -94,6 +101,7 @@ Definition decoy_oracle (input call : json) : option string :=
 (* C14: success exactly when the path list is a valid marking; never a panic *)
 Definition encode_oracle (expect : string) (o : json) : option string :=
   if String.eqb expect "any" then None   (* input outside the property's domain: only model = implementation is compared *)
+  else if String.eqb expect "ok_or_err" then (if obs_is "panic" o then Some "Issuer::encode panics" else None)   (* either answer is fine; what an Ok hands out is judged *)
   else if obs_is "panic" o then Some "Issuer::encode panics"
   else if String.eqb expect "ok" && negb (obs_is "ok" o) then Some "valid marking rejected by Issuer::encode"
   else if String.eqb expect "err" && negb (obs_is "err" o) then Some "unresolvable path list accepted by Issuer::encode"
@@ -139,7 +147,7 @@ Definition case_issue_call (input call : json) : verdict :=
   let rb := jget "readback" call in
   let npaths := List.length (jlist (jget "paths" input)) in
   let E := if obs_is "ok" eo then env_of_readback rb else dummy_env npaths in
-  let exp := jget "exp" (jget "payload" rb) in
+  let exp := exp_value call in
   let m := issue_model E input call exp in
   let mo := if obs_is "ok" eo then obs_of_out (fun r : string * json * list disc => JStr (fst (fst r))) m
             else match m with Val _ => JObj [("o", JStr "ok")] | Fail => JObj [("o", JStr "err")] | Panic => JObj [("o", JStr "panic")] end in
